@@ -18,7 +18,8 @@ TECHNIQUE = ('enumeration of all first-evaluation orders (<=6 formula '
              'workbooks x access paths (cell, address objects, enclosing '
              'rectangles, unbounded row/column forms, list/tuple/generator, '
              'sheet-less address), differential against a fresh model '
-             'evaluated in rank order')
+             'evaluated in rank order'
+             '; fixed workbooks with context-sensitive cells and an Excel table evaluated in all orders; order independence across successive models in one interpreter (forward / reversed / alone, fresh interpreter each)')
 LEVEL_TEXT = ('Exploration; exhaustive over evaluation orders for small '
               'workbooks, sampled beyond, each access also chosen among ~10 '
               'access paths so cells enter the model through ranges, lists '
